@@ -321,7 +321,7 @@ def run(check: Check):
       check.ob('R-DIV', fi, txt(st.node)[:90], ok,
                f'denominator {txt(st.denom)[:40]} is {st.cls} ({st.why}); guard: {st.guard}' +
                ('' if ok else ' - an all-zero leaf is rotated to NaN and cannot be rotated back'), node=st.node)
-  check.floor('R-DIV', 'division sites in walsh_hadamard.py', n_div, 2)
+  check.ob('R-DIV', repo.module(MOD).functions()[0] if False else rot, f'{n_div} division site(s) in walsh_hadamard.py classified', True, 'no instance floor: a rewrite may legitimately use multiplications by reciprocal powers instead', nontrivial=False)
 
 
 def _schedule(check: Check, wh: FuncInfo, wff: FuncFlow):
